@@ -52,14 +52,13 @@ const (
 )
 
 type Net struct {
-	// DialHook decides the outcome of every SUT dial; it runs on the dialling task.
-	DialHook func(addr string) DialOutcome
 	// Lookup resolves host names (nil: only IP literals resolve).
 	Lookup func(host string) ([]string, error)
 	// LoggerHook, if set, provides the zap logger for proxy.Run.
 	LoggerHook func(kind string) (*zap.Logger, error)
 
 	links     []*Link
+	dials     []*PendingDial
 	listeners []*Listener
 	nextLink  int
 	nextPort  int
@@ -148,6 +147,23 @@ func DialContext(ctx context.Context, network, addr string) (net.Conn, error) {
 	return DialContextWith(nil, ctx, network, addr)
 }
 
+// PendingDial is a SUT dial waiting for the scheduler's decision.
+type PendingDial struct {
+	Addr       string
+	Blackholed bool // the world decided never to answer; only the context can end it
+	ctxDone    bool
+	resolved   bool
+	outcome    DialOutcome
+	link       *Link
+	q          simrt.WaitQ
+}
+
+//go:norace
+func (d *PendingDial) cancelled() {
+	d.ctxDone = true
+	d.q.WakeAll()
+}
+
 //go:norace
 func DialContextWith(_ interface{}, ctx context.Context, network, addr string) (net.Conn, error) {
 	n := cur.Load()
@@ -160,31 +176,80 @@ func DialContextWith(_ interface{}, ctx context.Context, network, addr string) (
 		return nil, &net.OpError{Op: "dial", Net: network, Addr: strAddr(addr), Err: err}
 	}
 	n.Stats.Dials++
-	out := DialOutcome{Kind: DialRefuse}
-	if n.DialHook != nil {
-		out = n.DialHook(addr)
+	d := &PendingDial{Addr: addr}
+	n.dials = append(n.dials, d)
+	stop := context.AfterFunc(ctx, d.cancelled)
+	for !d.resolved && !d.ctxDone {
+		if simrt.Exiting() {
+			break
+		}
+		simrt.Block(&d.q, d, "dial")
 	}
-	switch out.Kind {
+	stop()
+	for i, x := range n.dials {
+		if x == d {
+			n.dials = append(n.dials[:i], n.dials[i+1:]...)
+			break
+		}
+	}
+	if !d.resolved {
+		if errors.Is(ctx.Err(), context.DeadlineExceeded) {
+			return nil, timeoutErr("dial", addr)
+		}
+		err := ctx.Err()
+		if err == nil {
+			err = errClosed
+		}
+		return nil, &net.OpError{Op: "dial", Net: network, Addr: strAddr(addr), Err: err}
+	}
+	switch d.outcome.Kind {
 	case DialRefuse:
 		n.Stats.DialRefused++
 		return nil, &net.OpError{Op: "dial", Net: network, Addr: strAddr(addr),
 			Err: os.NewSyscallError("connect", syscall.ECONNREFUSED)}
-	case DialBlackhole:
-		n.Stats.DialBlackholed++
-		<-ctx.Done()
-		simrt.Woke()
-		if errors.Is(ctx.Err(), context.DeadlineExceeded) {
-			return nil, timeoutErr("dial", addr)
+	}
+	return d.link.Conn, nil
+}
+
+// PendingDials lists the dials awaiting a decision (scheduler goroutine).
+//
+//go:norace
+func (n *Net) PendingDials() []*PendingDial {
+	var out []*PendingDial
+	for _, d := range n.dials {
+		if !d.resolved && !d.ctxDone && !d.Blackholed {
+			out = append(out, d)
 		}
-		return nil, &net.OpError{Op: "dial", Net: network, Addr: strAddr(addr), Err: ctx.Err()}
 	}
-	n.nextPort++
-	l := n.newLink(&net.TCPAddr{IP: net.ParseIP("127.0.0.1"), Port: n.nextPort}, parseTCP(addr), out.Peer, out.Tag)
-	l.Dialed = true
-	if out.Kind == DialReset {
-		l.toSUTEOF = true
+	return out
+}
+
+// ResolveDial completes a pending dial with the given outcome (scheduler goroutine). For
+// DialAccept/DialReset it returns the new link.
+//
+//go:norace
+func (n *Net) ResolveDial(d *PendingDial, out DialOutcome) *Link {
+	if d.resolved || d.ctxDone {
+		return nil
 	}
-	return l.Conn, nil
+	if out.Kind == DialBlackhole {
+		d.Blackholed = true
+		n.Stats.DialBlackholed++
+		return nil
+	}
+	d.outcome = out
+	if out.Kind == DialAccept || out.Kind == DialReset {
+		n.nextPort++
+		l := n.newLink(&net.TCPAddr{IP: net.ParseIP("127.0.0.1"), Port: n.nextPort}, parseTCP(d.Addr), out.Peer, out.Tag)
+		l.Dialed = true
+		if out.Kind == DialReset {
+			l.toSUTEOF = true
+		}
+		d.link = l
+	}
+	d.resolved = true
+	d.q.WakeAll()
+	return d.link
 }
 
 //go:norace
